@@ -223,7 +223,7 @@ PROPS["C14"] = {
                   "__iter__ (generator holding the lock across yields) and open/close are covered by the bounded layer only.",
 }
 PROPS["C05"] = {
-    "units": ["contracts.c05_functormap", "contracts.c05_mulpmap", "contracts.c15_buffers"],
+    "units": ["contracts.c05_functormap", "contracts.c05_mulpmap", "contracts.c05_workers", "contracts.c15_buffers"],
     "bounded": True,
     "level": "other",
     "trusted_base": ["pyvc VC generator (/verif/pyvc)", "z3", "Python semantics as listed in DESIGN.md §2.3",
@@ -237,9 +237,11 @@ PROPS["C05"] = {
                    "of the channel): the index attached to item d is its position, exactly one stop token per worker, blocking gets only "
                    "while a result is owed, every worker joined and only AFTER every result was taken from the queue (owed@join), and the "
                    "returned list is [f(x) for x in data]: 'sorted by pairwise distinct indices 0..n-1 => position p holds index p' and "
-                   "'every index was received' are lemmas proved by induction. Bounded only: FunctorWorker.run / FunRunner.run loop bodies "
-                   "(the own-pool worker loop is proved in C04), FunctorMap.__enter__/__exit__, real-process runs incl. results bigger than "
-                   "a pipe.",
+                   "'every index was received' are lemmas proved by induction. Worker side: FunctorWorker.run and FunRunner.run turn every item (i, c) taken from the "
+                   "work queue into exactly one result (i, [f(x) for x in c]), in order, and end exactly at the first stop token. Context: "
+                   "FunctorMap.__init__ (two queues, one channel, distinct worker objects wired to them), __enter__ (every worker started "
+                   "once), __exit__ (one stop token per worker; every worker joined, only when nothing is in flight). Bounded in addition: "
+                   "real-process runs incl. results bigger than a pipe.",
     "level_text": "Proof of the consumer/producer loop of FunctorMap under the demonic queue environment; bounded real-process runs for the rest.",
     "level_note": "Liveness proper is not claimed: owed@get is the safety surrogate (never blocked on a result that will not come), worker "
                   "progress is an assumption.",
